@@ -21,14 +21,18 @@ def rank_of(name):
     return ord(s[0]) - 96
 
 
-def make(rep, ranks, n, t, ishuf=False, trev=False):
+def tlabels(i, t, trev, tshift):
+    return list(range(t - 1, -1, -1)) if trev else list(range(i, i + t)) if tshift else list(range(t))
+
+
+def make(rep, ranks, n, t, ishuf=False, trev=False, tshift=False):
     cols = {}
     for j, r in enumerate(ranks):
         col = []
         for i in range(n):
             v = np.array([1000.0 * i + 100 * j + k for k in range(t)])
             if rep == "ns":
-                col.append(pd.Series(v, index=list(range(t - 1, -1, -1)) if trev else None))
+                col.append(pd.Series(v, index=tlabels(i, t, trev, tshift) if (trev or tshift) else None))
             else:
                 col.append(v)
         cols[name_of(r)] = col
@@ -48,6 +52,7 @@ def make(rep, ranks, n, t, ishuf=False, trev=False):
 LONG_NAMES = [("case_id", "reading_id", "dim_id"), ("inst", "tp", "var"), (None, None, None)]
 LONG_UNNAMED = ("index", "time_index", "column")      # headers of a long table made without any name
 LONG_CALLS = [0]
+MI_CALLS = [0]
 
 
 def long_names(obj):
@@ -71,6 +76,14 @@ def convert(obj, frm, to):
     if frm == "np3" and to in ("ns", "na"):
         return D.from_3d_numpy_to_nested(obj, cells_as_numpy=(to == "na"))
     if frm in ("ns", "na") and to == "mi":
+        MI_CALLS[0] += 1
+        if MI_CALLS[0] % 2:
+            # the frame is a row selection of a larger one (train / test split): its index levels still list the
+            # instance that was selected away
+            extra = obj.iloc[[0]].copy()
+            extra.index = [int(max(obj.index)) + 1]
+            big = D.from_nested_to_multi_index(pd.concat([obj, extra]), instance_index="inst", time_index="tp")
+            return big.loc[list(obj.index)]
         return D.from_nested_to_multi_index(obj, instance_index="inst", time_index="tp")
     if frm == "mi" and to == "ns":
         return D.from_multi_index_to_nested(obj, instance_index=obj.index.names[0])
@@ -145,13 +158,29 @@ def read(obj, rep, cfg):
         a = np.asarray(obj, dtype=float)
         toks = [float(v) for v in a.ravel()]
         shape = [a.shape[0], 1, a.shape[1]]
-    return {"rep": rep, "shape": shape, "names": names, "tokens": [int(round(v)) for v in toks], "nested": nested}
+    # time labels: those of the original cells, or 0..t-1
+    tl = "default"
+    special = bool(cfg.get("trev") or cfg.get("tshift"))
+    labs = None
+    try:
+        if rep == "ns":
+            labs = [[int(x) for x in obj.iloc[i, 0].index] for i in range(obj.shape[0])]
+        elif rep == "mi":
+            labs = [[int(x) for x in obj.xs(i, level=0).index] for i in list(dict.fromkeys(obj.index.get_level_values(0)))]
+    except Exception:
+        labs = "?"
+    if labs is not None:
+        orig = [tlabels(i, t, cfg.get("trev"), cfg.get("tshift")) for i in range(len(labs))] if labs != "?" else None
+        dflt = [list(range(t)) for _ in range(len(labs))] if labs != "?" else None
+        tl = "orig" if (special and labs == orig) else "default" if labs == dflt else "other"
+    return {"rep": rep, "shape": shape, "names": names, "tokens": [int(round(v)) for v in toks], "nested": nested, "tl": tl}
 
 
 def observe(cfg):
     warnings.filterwarnings("ignore")
     try:
-        obj = make(cfg["from"], cfg["names"], cfg["n"], cfg["t"], cfg.get("ishuf", False), cfg.get("trev", False))
+        obj = make(cfg["from"], cfg["names"], cfg["n"], cfg["t"], cfg.get("ishuf", False), cfg.get("trev", False),
+                   cfg.get("tshift", False))
         cur = cfg["from"]
         for to in cfg["path"]:
             obj = convert(obj, cur, to)
@@ -225,7 +254,8 @@ def run(ctx):
             ctx.violation(sc, "crash: " + obs["crash"])
             continue
         want = {"rep": exp["rep"], "shape": [cfg["n"], len(cfg["names"]), cfg["t"]], "names": exp["names"],
-                "tokens": flat(cfg["n"], exp["order"], cfg["t"]), "nested": exp["rep"] in ("ns", "na")}
+                "tokens": flat(cfg["n"], exp["order"], cfg["t"]), "nested": exp["rep"] in ("ns", "na"),
+                "tl": exp["tl"] if exp["rep"] in ("ns", "mi") else "default"}
         if obs != want:
             k = next(x for x in want if obs.get(x) != want[x])
             ctx.violation(sc, "spec->code: %s after %s->%s: expected %s observed %s"
